@@ -10,7 +10,7 @@ from ..core import Ctx
 from ..effects import STORAGE_READS
 from ..flow import ALL, find_path, names_in
 from ..model import AnalysisError, FunctionInfo, dotted, norm_text
-from .common import (facts_at, package_functions, resolve_value, known_null_call, edge_target, guarded_names, handler_exits, handler_nodes, hint_value, in_handler, kwarg, path_arg,
+from .common import (facts_at, judged_in_callers, package_functions, resolve_value, known_null_call, edge_target, guarded_names, handler_exits, handler_nodes, hint_value, in_handler, kwarg, path_arg,
                      reachable_from, try_body_calls)
 
 EXPLANATION = (
@@ -468,6 +468,8 @@ def pointer_publishes_fresh_version(ctx: Ctx, rid: str = "C10.R15") -> None:
         for caller, n in ctx.eff.call_sites.get(w.qname, []):
             if caller.qname in wq or not isinstance(n.ast, ast.Call):
                 continue
+            if judged_in_callers(ctx, caller):
+                continue  # a helper introduced later: its copy analysed in place inside the known caller is judged there
             tg = ctx.eff.callees(caller, n)
             pn = next((p.name for p in w.params if p.name != "self"), None)
             if w.name == "initialize_table" or pn is None:
